@@ -58,6 +58,13 @@ def build_specs(ctx, d):
     ctl["args"][ctl["args"].index("--seed") + 1] = str(seed + 1)
     g.append(ctl)
     groups.append(("one-chain", g))
+    # --- boundary seed values: 0 is a valid seed (falsy in Python), as is a seed above 2**32
+    for sv, chains in ((0, 1), (0, 2), (2**40 + 7, 1)):
+        gname = "seed=%d-chains=%d" % (sv, chains)
+        g = [spec(gname, "reference", small, chains, a), spec(gname, "hashseed=random", small, chains, a, hashseed=None)]
+        for sp in g:
+            sp["args"][sp["args"].index("--seed") + 1] = str(sv)
+        groups.append((gname, g))
     # --- one chain, outlier-rich: a high outlier prior keeps several data points in the outlier set, so any code
     # path that iterates over a set / dict of outliers (hash-seed dependent order) feeds the generator differently
     a = ["--proposal", "fully-adapted", "--outlier-prob", 0.45, "--subtree-update-prob", 0.3]
